@@ -56,7 +56,7 @@ PROPS["C11"] = {
         "Peekable<Chars> obeys the iterator laws and yields exactly the remaining chars (trusted axiom axiom_peekable_chars_iter_laws and the next/peek specs in prelude/chars.rs)",
         "the cfb container compares/stores root entry names as given and interprets only '/' and '\\' as separators (so an accepted, separator-free encoded name is one root entry)",
         "Streams::next (group streams) on a model of cfb::Entries (a fixed sequence of (is_stream, name) directory entries): the listing yields, in order, exactly the entries that are streams, are none of the four special streams (names spelled out from the format, not taken from the code's constants) and do not decode to a table, each as its decoded name; streamname::decode is imported (proved in group streamname)",
-        "read/write/remove_stream and remove_digital_signature (cfb I/O) are not covered",
+        "Package::has_stream / read_stream / write_stream / remove_stream / remove_digital_signature (group pkgstreams) on the container model VComp (prelude/comp.rs: a set of stream names; create_stream hands out an EMPTY stream and adds the name, open_stream changes nothing, remove_stream removes exactly the name): a name that is not accepted, or a missing stream, is refused before the container is touched; success changes exactly the encoded name; write_stream starts on an empty stream; is_valid / encode are imported from group streamname. The content of streams and the real cfb directory are not covered",
     ],
 }
 
@@ -207,6 +207,8 @@ READER_FNS = ["StringRef::read", "ColumnType::read_value", "Timestamp::read_from
 PROPS["C02"]["verus"]["readers"] = READER_FNS
 PROPS["C09"]["verus"]["readers"] = READER_FNS
 PROPS["C11"]["verus"]["streams"] = ["Streams::next"]
+PROPS["C11"]["verus"]["pkgstreams"] = ["Package::has_stream", "Package::read_stream", "Package::write_stream", "Package::remove_stream",
+                                       "Package::remove_digital_signature", "Package::comp", "Package::comp_mut", "StreamWriter::new", "StreamReader::new"]
 PROPS["C14"]["probes"] = {"CodePage::encode": ["encode"]}
 PROPS["C18"]["probes"] = {"timestamp_from_system_time": ["time"], "system_time_from_timestamp": ["time"],
                           "duration_to_timestamp_delta": ["time"], "timestamp_delta_to_duration": ["time"]}
